@@ -41,7 +41,11 @@ PROP = {'rule': 'rapid-generated cases: node capacity (1-256 cpu, 1 GiB-4 TiB), 
             'pkg': 'pkg/slo-controller/noderesource/plugins/midresource',
             'files': ['C09/c09_mid_test.go'],
             'tests': [{'run': 'TestVerifC09MidBound', 'quick': 4000, 'thorough': 10000},
-                      {'run': 'TestVerifC09MidMonotone', 'quick': 3000, 'thorough': 6000}]}],
+                      {'run': 'TestVerifC09MidMonotone', 'quick': 3000, 'thorough': 6000}]},
+           {'name': 'reconcile',
+            'pkg': 'pkg/slo-controller/noderesource',
+            'files': ['C09/c09_reconcile_test.go'],
+            'tests': [{'run': 'TestVerifC09ReconcileHistory', 'quick': 1500, 'thorough': 4000}]}],
  'manifest': {'technique': 'property-based testing (rapid): generated node/strategy/pod/metric/topology inputs with an exact-rational '
                            'bound oracle and metamorphic monotonicity relations',
               'text': 'Generated-input search over Plugin.Calculate of the batch and mid resource plugins (node path and NUMA-zone path '
